@@ -63,7 +63,7 @@ func newMachine() *rig.Machine {
 }
 
 func run(c *rig.Ctx) {
-	c.Require("square_frequencies", "wave_frequencies", "noise_settings", "steps_observed", "lfsr_bits_checked", "lfsr_full_periods")
+	c.Require("square_frequencies", "wave_frequencies", "noise_settings", "steps_observed", "lfsr_bits_checked", "lfsr_full_periods", "sweep_cases")
 	steps := c.N(10, 64)
 
 	// channels 1-3: every 11-bit frequency
@@ -134,6 +134,112 @@ func run(c *rig.Ctx) {
 		}
 	})
 	c.MarkExhaustive("every 11-bit frequency on channels 1, 2 and 3")
+
+	// channel 1 under its frequency sweep: the step period follows the swept frequency.
+	// The reference sweep sequence is f(k+1) = f(k) +/- (f(k) >> shift), one update every
+	// (sweep period) x 8192 machine cycles. In steady state consecutive duty steps are exactly
+	// 2048 - f machine cycles apart, so every observed interval gives the frequency in use;
+	// the observed frequencies must walk through f0, f1, f2, ... in order, no earlier than the
+	// sweep clock allows and no later than one sweep period (plus one sequencer period of phase)
+	// after it is due.
+	c.Part("sweep", c.N(96, 1500), func(i int64, r *rig.Rng) {
+		per := 1 + r.Intn(7)
+		shift := 1 + r.Intn(7)
+		down := r.Bool()
+		f0 := 64 + r.Intn(900)
+		if down {
+			f0 = 600 + r.Intn(1400)
+		}
+		// reference sequence (stop before an overflow)
+		seq := []int{f0}
+		for len(seq) < 5 {
+			f := seq[len(seq)-1]
+			d := f >> uint(shift)
+			nf := f + d
+			if down {
+				nf = f - d
+			}
+			if nf > 2047 || nf+(nf>>uint(shift)) > 2047 || nf < 0 || d == 0 {
+				break
+			}
+			seq = append(seq, nf)
+		}
+		if len(seq) < 3 {
+			return
+		}
+		m := newMachine()
+		for k := 0; k < r.Intn(9000); k++ {
+			m.Audio.EndMachineCycle()
+		}
+		nr10 := uint8(per<<4 | shift)
+		if down {
+			nr10 |= 0x08
+		}
+		m.Mem.Write(0xff10, nr10)
+		m.Mem.Write(0xff12, 0xf0)
+		m.Mem.Write(0xff13, uint8(f0))
+		m.Mem.Write(0xff14, 0x80|uint8(f0>>8))
+		prev := m.Audio.XWaveState().Duty1
+		lastStep := int64(-1)
+		idx := 0
+		sweepCycles := int64(per) * 8192
+		total := int64(len(seq)-1)*sweepCycles + 3*8192
+		for n := int64(1); n <= total; n++ {
+			m.Audio.EndMachineCycle()
+			cur := m.Audio.XWaveState().Duty1
+			if cur == prev {
+				continue
+			}
+			prev = cur
+			if lastStep >= 0 {
+				fobs := 2048 - int(n-lastStep)
+				// which element of the sequence is it?
+				at := -1
+				for j := idx; j < len(seq); j++ {
+					if seq[j] == fobs {
+						at = j
+						break
+					}
+				}
+				c.Count("steps_observed", 1)
+				switch {
+				case at < 0:
+					// one interval may straddle a frequency update
+					c.Count("sweep_transition_intervals", 1)
+				default:
+					if at > idx+1 {
+						c.Count("sweep_skipped_elements", 1)
+					}
+					idx = at
+					// not earlier than the sweep clock allows
+					if int64(idx-1)*sweepCycles > n+8192 && idx > 0 {
+						c.Violate("sweep-too-early", fmt.Sprintf("NR10=%02X f0=%d: frequency %d (update %d) in use after only %d cycles", nr10, f0, fobs, idx, n), nil)
+						return
+					}
+				}
+				// bounded progress: update k is due after k sweep periods (+ up to one sequencer
+				// period of phase); one more sweep period later it must be in use
+				due := 0
+				for k := 1; k < len(seq); k++ {
+					if n > int64(k)*sweepCycles+8192+sweepCycles/2+4096 {
+						due = k
+					}
+				}
+				if at >= 0 && idx < due {
+					c.Violate("sweep-frequency-not-applied", fmt.Sprintf("NR10=%02X (period %d, shift %d, decreasing=%v), triggered at f=%d: %d cycles later channel 1 still steps every %d cycles (f=%d); the sweep sequence is %v and update %d was due",
+						nr10, per, shift, down, f0, n, 2048-fobs, fobs, seq, due), map[string]any{"nr10": nr10, "f0": f0, "sequence": seq})
+					return
+				}
+			}
+			lastStep = n
+		}
+		if idx == 0 {
+			c.Violate("sweep-frequency-not-applied", fmt.Sprintf("NR10=%02X f0=%d: no frequency update observed in %d cycles (sequence %v)", nr10, f0, total, seq), nil)
+			return
+		}
+		c.Count("sweep_cases", 1)
+		c.Case(rig.Hash(uint64(nr10), uint64(f0)))
+	})
 
 	// channel 4: every NR43 value with s <= 13
 	c.Part("noise", 14*16, func(i int64, r *rig.Rng) {
